@@ -104,7 +104,7 @@ def main():
     if seed:
         import random
         random.Random(seed).shuffle(shards)
-    bdir = os.path.join(HERE, "build", prop)
+    bdir = os.path.join(HERE, "build", prop if REPO == "/repo" else prop + "_scratch_" + hashlib.sha1(REPO.encode()).hexdigest()[:8])
     build(bdir, sorted(set(os.path.join(bdir, s["bin"]) for s in shards)))
     deadline = plan.get("deadline", 120 if tier == "quick" else 1500)
     results = []
@@ -174,8 +174,10 @@ def main():
         "violations": len(new_viols),
         "known_findings_reobserved": len(known_hits),
     }
-    os.makedirs(os.path.join(HERE, "evidence"), exist_ok=True)
-    with open(os.path.join(HERE, "evidence", prop + ".json"), "w") as f:
+    # evidence describes /repo itself; runs against a scratch copy (CAT_REPO) must not overwrite it
+    evdir = os.path.join(HERE, "evidence") if REPO == "/repo" else os.path.join(HERE, "build", "evidence_scratch")
+    os.makedirs(evdir, exist_ok=True)
+    with open(os.path.join(evdir, prop + ".json"), "w") as f:
         json.dump(ev, f, indent=1)
     for v, o in known_hits:
         print("KNOWN-FINDING: property=%s %s" % (prop, o["text"]))
